@@ -56,14 +56,14 @@ Qed.
 Definition static_end (s : ost) (o : rop) : Prop :=
   match o with
   | REnd id st sp v => ∃ t, nth_error (trials s) id = Some t ∧
-        (ensure_go0 draw sp (list_to_map v) (a_k (algo s))).1 = tv_values (t_data t)
+        (ensure_go draw sp sp (list_to_map v) (a_k (algo s))).1 = tv_values (t_data t)
   | RReload => False
   | _ => True
   end.
 (* freshly sampled values are already complete, so the fill-in leaves them alone *)
 Definition sample_complete (s : ost) : Prop :=
   ∀ v seed seed' k, random_values samp max_collisions (S (S max_collisions)) (s_space (a_osp (algo s))) (a_tried (algo s)) seed 0 = (Some v, seed') →
-     (ensure_go0 draw (s_space (a_osp (algo s))) v k).1 = v.
+     (ensure_go draw (s_space (a_osp (algo s))) (s_space (a_osp (algo s))) v k).1 = v.
 
 Lemma vals_of_upd (s : ost) ts' id t0 t' j :
   ts' = upd id (λ _, t') (trials s) →
@@ -119,7 +119,7 @@ Proof.
         destruct (random_values samp max_collisions (S (S max_collisions)) (s_space (a_osp (algo s))) (a_tried (algo s)) (a_seed (algo s)) 0) as [[v0|] seed'] eqn:Erv.
         - pose proof (random_values_fresh _ _ _ _ _ _ _ Erv) as Hfresh.
           pose proof (Hsc v0 _ _ (a_k (algo s)) Erv) as Hens.
-          destruct (ensure_go0 draw (s_space (a_osp (algo s))) v0 (a_k (algo s))) as [v' k'] eqn:Ee. cbn in Hens. subst v'.
+          destruct (ensure_go draw (s_space (a_osp (algo s))) (s_space (a_osp (algo s))) v0 (a_k (algo s))) as [v' k'] eqn:Ee. cbn in Hens. subst v'.
           set (a1 := {| a_osp := a_osp (algo s); a_seed := seed'; a_tried := a_tried (algo s); a_idhash := a_idhash (algo s); a_k := a_k (algo s) |}).
           assert (Hnone : idh a1 !! id = None).
           { destruct (idh a1 !! id) eqn:E; [|done]. exfalso. assert (id < length (trials s)); [|unfold id in *; lia].
@@ -169,7 +169,7 @@ Proof.
     + split; [done|]. intros t' Ht. exfalso. apply (f_equal length) in Ht. rewrite app_length in Ht. cbn in Ht. lia.
   - (* end, with the tuner returning the values it was given *)
     destruct Hst as (t0 & Et0 & Hv).
-    destruct (ensure_go0 draw sp (list_to_map v) (a_k (algo s))) as [v' k'] eqn:Ee. cbn in Hv. subst v'.
+    destruct (ensure_go draw sp sp (list_to_map v) (a_k (algo s))) as [v' k'] eqn:Ee. cbn in Hv. subst v'.
     cbn [step]. unfold do_end.
     destruct (negb (existsb (λ kv, kv.2 =? id) (ongoing s))) eqn:Eex; cbn.
     { split; [by destruct HT|]. intros t' Ht. exfalso. apply (f_equal length) in Ht. rewrite app_length in Ht. cbn in Ht. lia. }
